@@ -137,7 +137,15 @@ class P(object):
                 run.append(self.peek())
                 self.i += 1
             self.i = save
-            if len(run) == 1 and run[0] in ("ID", "INT", "FLOAT"):
+            if self.peek(len(run)) == "COLON":          # unquoted text with colons as the value of a pair
+                _, first = self.wordrun()
+                more = []
+                while self.peek() == "COLON":
+                    self.take("COLON")
+                    _, ws = self.wordrun()
+                    more.append(ws)
+                v = "(PVColon %s %s)" % (first, clist(more))
+            elif len(run) == 1 and run[0] in ("ID", "INT", "FLOAT"):
                 v = "(PVLeaf %s)" % self.leaf()
             else:
                 _, ws = self.wordrun()
